@@ -54,13 +54,13 @@ func raftLogOf(e *verifgen.Entry) *raft.Log {
 		if err != nil {
 			panic(err)
 		}
-		return &raft.Log{Index: e.Id, Term: 1, Type: raft.LogCommand, Data: b, AppendedAt: time.Unix(0, e.UnixNano)}
+		return &raft.Log{Index: e.Id, Term: 3, Type: raft.LogCommand, Data: b, AppendedAt: time.Unix(0, e.UnixNano)}
 	}
 	b, err := proto.Marshal(m.ProtoMessage())
 	if err != nil {
 		panic(err)
 	}
-	return &raft.Log{Index: e.Id, Term: 1, Type: raft.LogCommand, Data: append([]byte{'p'}, b...), AppendedAt: time.Unix(0, e.UnixNano)}
+	return &raft.Log{Index: e.Id, Term: 3, Type: raft.LogCommand, Data: append([]byte{'p'}, b...), AppendedAt: time.Unix(0, e.UnixNano)}
 }
 
 func verifCommands() []string {
